@@ -210,6 +210,27 @@ def case(args):
             (f if modifier == "ctx" else base).forget(name)
             call("after-forget", 1, False)
             call("after-forget-second", 1 if transient else 0, True)
+        if not bad and not transient:
+            # other function-level routes to the same entry: custom metadata, the table listing, forgetting through the memento
+            g = f if modifier == "ctx" else base
+            try:
+                g.put_metadata("note", b"payload-" + name.encode(), name)
+                got_md = g.get_metadata("note", args=(name,))
+                if got_md != b"payload-" + name.encode():
+                    bad = ("metadata-round-trip", "get_metadata returned %r" % (got_md,))
+                elif modifier == "ctx" and fx.val.get_metadata("note", args=(name,)) is not None:
+                    bad = ("metadata-scope", "metadata written for the call under context arguments is served for the plain call")
+                if not bad:
+                    tbl = g.list()
+                    rows = [] if tbl is None else [r for r in tbl.to_dict("records") if r.get("name") == name]
+                    if len(rows) != 1 or rows[0].get("result_type") != g.memento(name).invocation_metadata.result_type.name:
+                        bad = ("table-listing", "list() shows %r for this call" % (rows,))
+                if not bad:
+                    g.memento(name).forget()
+                    call("after-memento-forget", 1, False)
+                    call("after-memento-forget-second", 0, True)
+            except Exception as e:
+                bad = bad or ("function-level-route-raised", "put_metadata / get_metadata / list / memento().forget raised %r" % (e,))
         if not bad:
             audit.bodies_reset()
             nb = outcome(lambda: base("__neighbour"))
@@ -277,7 +298,7 @@ def run(ctx):
     ctx.rule = ("result values: %d atoms (None, bool, ints, floats incl. -0.0/NaN/inf, str, bytes, date, naive/aware datetime, "
                 "Timestamp, numpy arrays of 7 dtypes empty/len 1/with NaN, Index/Series/DataFrame empty/tiny/object/NaN, in-memory and "
                 "on-disk partitions) + 7 exception classes, closed under list/dict to depth %d x {memory, filesystem, fs+cache 8 B / "
-                "4 KiB / 1 MiB} x {plain, ignore_result, force_local, all calls stored under one shared key override, under context arguments}; exception values after every other exception class of the alphabet (incl. a same-named class of another module) was recorded and replayed in the process; sequence call, call, memento(), forget, call, call + "
+                "4 KiB / 1 MiB} x {plain, ignore_result, force_local, all calls stored under one shared key override, under context arguments}; exception values after every other exception class of the alphabet (incl. a same-named class of another module) was recorded and replayed in the process; sequence call, call, memento(), forget, call, call, put/get_metadata, list(), memento().forget(), call, call + "
                 "neighbour call stays memoized. distinct = (backend, value, modifier)." % (len(names("quick")) - 7, 2 if thorough else 1))
     ctx.assumptions += ["pandas values have <= 100 rows (the cache's size estimator samples above that)",
                         "a replayed exception keeps its class when the class is importable and constructible from one string, otherwise "
